@@ -56,10 +56,14 @@ func (nodes TlvNodes) Encode() []byte {
 //	e.g. {tag:0x06, children:{...}}
 func (nodes TlvNodes) stringWithIndent(indent int) string {
 	var sb strings.Builder
-	for _, child := range nodes.nodes {
-		sb.WriteString(child.stringWithIndent(indent))
-	}
+	nodes.writeString(&sb, indent)
 	return sb.String()
+}
+
+func (nodes TlvNodes) writeString(sb *strings.Builder, indent int) {
+	for _, child := range nodes.nodes {
+		child.writeString(sb, indent)
+	}
 }
 
 func (nodes TlvNodes) String() string {
